@@ -102,7 +102,7 @@ PROPS["C17"] = {
 
 
 NOT_APPLICABLE = [
-    {"property_id": "C08", "reason": "the hand-polled future of DltStreamReader::next_message_slice (futures BufReader + read_exact state machines over heap buffers) exceeds 16 GB in CBMC even for one 5-byte message and a 2-step Pending/Ready schedule; no bounded instance reaches a verdict (DESIGN.md 9.5). The defect shared with the blocking reader (F6) was found through C07 and repaired in both readers."},
+    {"property_id": "C08", "reason": "the hand-polled future of DltStreamReader::next_message_slice (futures BufReader + read_exact state machines over heap buffers) exceeds 16 GB in CBMC even for one 5-byte message and a 2-step Pending/Ready schedule; no bounded instance reaches a verdict, also not with literal (enumerated) schedules: a single Pending followed by a 2-byte fragment exceeds 16 GB after 257 s (DESIGN.md 9.5). The defect shared with the blocking reader (F6) was found through C07 and repaired in both readers."},
     {"property_id": "C12", "reason": "byte level (XML files through quick-xml) is out of reach; the event-level harness (read_event stubbed) does not reach a verdict either: the event enum loses its concrete discriminant when moved through `?` and std's stable sort is explored with symbolic length (DESIGN.md 9.5). The infinite loop on end-of-file inside <PDU>/<FRAME> was demonstrated natively and repaired (F7), not found by a solver-based check."},
     {"property_id": "C11", "reason": "quantifies over XML documents on disk parsed by quick-xml into HashMaps; no unit carrying the property is within reach of bounded symbolic execution (DESIGN.md C11)"},
 ]
